@@ -15,5 +15,6 @@ CONSTANTS
   MAX = 32767
   MaxDigits <- Int64MaxDigits
   Extra <- BoundaryInts
+  ExtraSeq <- NoExtraSeq
 INVARIANTS EmitInv
 CHECK_DEADLOCK FALSE
